@@ -684,7 +684,7 @@ def method_call(ev, recv, name, args, kwargs, fr, node):
                 return T.NONE
             if name in ('write', 'writelines', 'close', 'flush'):
                 ev.effects.append(('file-write', fr.fn.qual if fr.fn else None, node.lineno,
-                                   ast.unparse(node.func)))
+                                   ast.unparse(node.func), tuple(args)))
                 return T.NONE
             fr.env[var] = T.opaque('mutated by .%s' % name)
             return T.NONE
